@@ -1312,6 +1312,20 @@ fn disagree(got: &Rec, want: &Rec, op: &Op) -> Option<String> {
         }
         return Some(format!("result: {} but a shared vector gives {}", got.out, want.out));
     }
+    // `capacity` is the one result a vector's contents do not determine, but asking twice
+    // without a mutation in between gives one answer: the number the call returned (from a
+    // script: through the `capacity` binding) against the capacity the same list reports to
+    // the observation right after it (Rust API)
+    if let Op::Capacity(h) = op {
+        let said = got.out.strip_prefix('n').and_then(|s| s.parse::<u64>().ok());
+        if let (Some(c), Some(Some((_, Some(gc), _)))) = (said, got.slots.get(*h)) {
+            if c != *gc {
+                return Some(format!(
+                    "result: capacity() returns {c}, asked again right after (no mutation in between) the same list reports {gc}"
+                ));
+            }
+        }
+    }
     for (h, (g, w)) in got.slots.iter().zip(&want.slots).enumerate() {
         match (g, w) {
             (None, None) => {}
@@ -2428,9 +2442,13 @@ fn main() {
                     rep
                 }));
             }
+            let mut main_rep = Report::default();
+            strings_tie(&mut main_rep);
+            floats_tie(&mut main_rep);
+            // the nested-list runs report into a report of their own, merged AFTER the flat
+            // histories: the report keeps 200 violations, and one nested key repeated 199 times
+            // must not crowd out the (shorter, flat) failing inputs of the same defect
             let mut rep = Report::default();
-            strings_tie(&mut rep);
-            floats_tie(&mut rep);
             {
                 let (ended, out) = run_worker_keep_stdout(&["nested"], Duration::from_secs(120));
                 if let Some(v) = Report::parse_stdout(&out) {
@@ -2482,12 +2500,33 @@ fn main() {
                     from = last + 1;
                 }
             }
+            let nested_rep = std::mem::replace(&mut rep, main_rep);
             for h in handles {
                 let r = h.join().expect("range thread");
                 let v = json!({
                     "evaluations": r.evaluations, "classes": r.classes,
                     "impl_violations": r.impl_violations, "model_mismatches": r.model_mismatches,
                     "samples": r.samples, "histograms": r.histograms, "notes": r.notes,
+                });
+                rep.merge_json(&v);
+            }
+            {
+                // at most 5 instances per key from the nested runs
+                let mut seen: std::collections::HashMap<String, usize> = std::collections::HashMap::new();
+                let kept: Vec<serde_json::Value> = nested_rep
+                    .impl_violations
+                    .iter()
+                    .filter(|v| {
+                        let n = seen.entry(v["key"].as_str().unwrap_or("?").to_string()).or_insert(0);
+                        *n += 1;
+                        *n <= 5
+                    })
+                    .cloned()
+                    .collect();
+                let v = json!({
+                    "evaluations": nested_rep.evaluations, "classes": nested_rep.classes,
+                    "impl_violations": kept, "model_mismatches": nested_rep.model_mismatches,
+                    "samples": nested_rep.samples, "histograms": nested_rep.histograms, "notes": nested_rep.notes,
                 });
                 rep.merge_json(&v);
             }
